@@ -71,12 +71,14 @@ func (m *Mux) NewEndpoint(matchFunc MatchFunc) *Endpoint {
 	// Set a maximum size of the buffer in bytes.
 	endpoint.buffer.SetLimitSize(maxBufferSize)
 
+	// Flush the queued packets in the same critical section that makes the
+	// endpoint visible to dispatch, so that no newer packet can overtake them.
+	verifhook.Point("mux.handlePending.start")
 	m.lock.Lock()
 	m.endpoints[endpoint] = matchFunc
+	m.handlePendingPackets(endpoint, matchFunc)
 	m.lock.Unlock()
 	verifhook.Point("mux.newEndpoint.registered")
-
-	go m.handlePendingPackets(endpoint, matchFunc)
 
 	return endpoint
 }
@@ -200,11 +202,8 @@ func (m *Mux) dispatch(buf []byte) error {
 	return err
 }
 
+// handlePendingPackets must be called with m.lock held.
 func (m *Mux) handlePendingPackets(endpoint *Endpoint, matchFunc MatchFunc) {
-	verifhook.Point("mux.handlePending.start")
-	m.lock.Lock()
-	defer m.lock.Unlock()
-
 	pendingPackets := make([][]byte, 0, len(m.pendingPackets))
 	for _, buf := range m.pendingPackets {
 		if matchFunc(buf) {
